@@ -98,14 +98,14 @@ func C04(tier string) {
 			}
 			lo := 255*p.dst.Curve.OETF(xl) - 0.5 - 2e-4
 			hi := 255*p.dst.Curve.OETF(xh) + 0.5 + 2e-4
-			if g := float64(got[ch]); g < lo || g > hi {
+			if g := float64(got[ch]); (g < lo || g > hi) && !r.Seen(p.src.Name+"->"+p.dst.Name+"/channel") {
 				r.Violate(fmt.Sprintf("%s->%s/channel", p.src.Name, p.dst.Name),
 					fmt.Sprintf("%s->%s pixel %v gives %v: channel %d = %d, reference linear value %.7f allows [%.3f, %.3f]", p.src.Name, p.dst.Name, c, out, ch, got[ch], ref[ch], lo, hi),
 					map[string]interface{}{"src": p.src.Name, "dst": p.dst.Name, "pixel": []uint8{c.R, c.G, c.B, c.A}},
 					func() bool { return conv(p, c) == out })
 			}
 		}
-		if out.A != c.A {
+		if out.A != c.A && !r.Seen(p.src.Name+"->"+p.dst.Name+"/alpha") {
 			r.Violate(fmt.Sprintf("%s->%s/alpha", p.src.Name, p.dst.Name),
 				fmt.Sprintf("%s->%s pixel %v returns alpha %d", p.src.Name, p.dst.Name, c, out.A),
 				map[string]interface{}{"src": p.src.Name, "dst": p.dst.Name, "pixel": []uint8{c.R, c.G, c.B, c.A}}, nil)
